@@ -701,6 +701,12 @@ def execute(ctx, cases, NB):
     flat = [None] * len(cases)
     for pos, k in enumerate(order):
         flat[k] = flat_sorted[pos]
+    judge(ctx, cases, flat, NB)
+    return flat
+
+
+def judge(ctx, cases, flat, NB):
+    """oracle + model comparison of observed (case, obs) pairs"""
     reqs = [case_request(c, NB.get(c["dtype"], 1)) for c in cases]
     fl_idx = [k for k, c in enumerate(cases) if c["dtype"] in INT_BITS]
     reqs_fl = [dict(case_request(cases[k], NB[cases[k]["dtype"]]), op="quantize_fl32") for k in fl_idx]
@@ -738,7 +744,217 @@ def execute(ctx, cases, NB):
             ctx.nontrivial(key)
             report(ctx, c, fails)
             compare_cast(ctx, c, obs, rep)
-    return flat
+
+
+# ----------------------------------------------------------------------------- call sites inside the optimizers
+def site_configs(tier, seed):
+    import numpy as np
+    rng = np.random.default_rng([seed, 1111])
+    trees = [[[4, 3], [5], [2, 3, 2], []], [[3, 3], [1, 4], [6, 1]], [[2, 2, 2], [7]], [[5, 2, 1, 2], [3]]]
+    out = []
+    n = 1 if tier == "quick" else 4
+    for _ in range(n):
+        for be in (True, False):
+            for graft in ("SGD", "RMSPROP_NORMALIZED", "ADAGRAD"):
+                out.append({"opt": "ds", "best_effort": be, "graft": graft, "shapes": trees[int(rng.integers(0, len(trees)))],
+                            "scale_log2": int(rng.integers(-40, 40)), "gseed": int(rng.integers(0, 2 ** 31)), "steps": 3})
+        for tr in trees[:2] if tier == "quick" else trees:
+            out.append({"opt": "sm3", "shapes": [sh for sh in tr if sh], "scale_log2": int(rng.integers(-40, 40)),
+                        "gseed": int(rng.integers(0, 2 ** 31)), "steps": 3})
+        out.append({"opt": "ds_pmap", "best_effort": True, "graft": "RMSPROP_NORMALIZED", "shapes": [[4, 3], [5], [3, 3]],
+                    "scale_log2": int(rng.integers(-10, 10)), "gseed": int(rng.integers(0, 2 ** 31)), "steps": 3})
+    return out
+
+
+def run_sites(chunk):
+    """Run real optimizers eagerly with QuantizedValue.from_float_value wrapped by a recorder (the class attribute is
+    patched in this worker process only; /repo is not touched)."""
+    import sys
+    import io
+    import contextlib
+    import numpy as np
+    import jax
+    import jax.numpy as jnp
+    from precondition import distributed_shampoo as ds
+    from precondition import sm3
+    from precondition.quantization_utils import QuantizedValue as QV
+
+    orig = QV.from_float_value.__func__
+    log = []
+
+    def bits(a):
+        return ["0x%08x" % int(v) for v in np.asarray(a, dtype=np.float32).reshape(-1).view(np.uint32)]
+
+    def rec(cls, fvalue, quantized_dtype, extract_diagonal=False):
+        out = orig(cls, fvalue, quantized_dtype, extract_diagonal)
+        caller = sys._getframe(1).f_code.co_name
+        dname = jnp.dtype(quantized_dtype).name
+        if isinstance(fvalue, list):
+            back = out.to_float()
+            log.append({"site": caller, "dtype": dname, "ed": bool(extract_diagonal), "empty": True,
+                        "ok": bool(fvalue == [] and isinstance(back, list) and back == [] and out.quantized == [])})
+            return out
+        if isinstance(fvalue, jax.core.Tracer):
+            log.append({"site": caller, "dtype": dname, "ed": bool(extract_diagonal), "traced": True, "rank": int(fvalue.ndim)})
+            return out
+        x = np.asarray(fvalue)
+        shape = [int(d) for d in x.shape]
+        e = {"site": caller, "dtype": dname, "ed": bool(extract_diagonal), "rank": len(shape), "shape": shape or [1],
+             "data": bits(x), "in_dtype": str(x.dtype)}
+        y = out.to_float()
+        out2 = orig(cls, y, quantized_dtype, extract_diagonal)
+        if dname in ("int8", "int16"):
+            e["obs"] = {"q": [int(v) for v in np.asarray(out.quantized).reshape(-1)], "bucket": bits(out.bucket_size),
+                        "diag": bits(out.diagonal) if extract_diagonal else [], "deq": bits(y),
+                        "rq": [int(v) for v in np.asarray(out2.quantized).reshape(-1)], "rbucket": bits(out2.bucket_size),
+                        "qdtype": str(out.quantized.dtype), "shape_field": [int(v) for v in out.shape]}
+        else:
+            e["obs"] = {"deq": bits(y), "deq2": bits(out2.to_float()), "qdtype": str(out.quantized.dtype),
+                        "ydtype": str(np.asarray(y).dtype)}
+        log.append(e)
+        return out
+
+    def state_qvs(tree):
+        return [l for l in jax.tree_util.tree_leaves(tree, is_leaf=lambda t: isinstance(t, QV)) if isinstance(l, QV)]
+
+    results = []
+    QV.from_float_value = classmethod(rec)
+    try:
+        for cfg in chunk:
+            log.clear()
+            res = {"cfg": cfg, "records": [], "state": []}
+            try:
+                rng = np.random.default_rng(cfg["gseed"])
+                params = {"p%d" % k: jnp.asarray(rng.standard_normal(sh).astype(np.float32)) for k, sh in enumerate(cfg["shapes"])}
+                sc = 2.0 ** cfg["scale_log2"]
+                with contextlib.redirect_stdout(io.StringIO()):
+                    if cfg["opt"] == "sm3":
+                        opt = sm3.sm3(0.1)
+                    else:
+                        opt = ds.distributed_shampoo(
+                            0.1, block_size=8, best_effort_memory_usage_reduction=cfg["best_effort"],
+                            batch_axis_name="batch" if cfg["opt"] == "ds_pmap" else None,
+                            graft_type=getattr(ds.GraftingType, cfg["graft"]), preconditioning_compute_steps=1,
+                            statistics_compute_steps=1, skip_preconditioning_rank_lt=0, start_preconditioning_step=1)
+                    st = opt.init(params)
+                    upd = opt.update
+                    if cfg["opt"] == "ds_pmap":
+                        rep = lambda tree: jax.tree.map(lambda x: jnp.broadcast_to(x, (1,) + x.shape), tree)  # noqa: E731
+                        upd = jax.pmap(opt.update, axis_name="batch")
+                        st, params = rep(st), rep(params)
+                    for _ in range(cfg["steps"]):
+                        g = jax.tree.map(lambda p: jnp.asarray((rng.standard_normal(p.shape) * sc).astype(np.float32)), params)
+                        _u, st = upd(g, st, params)
+                res["records"] = list(log)
+                # the QuantizedValues left in the optimizer state (payloads only; judged by their own invariants)
+                for qv in state_qvs(st):
+                    dname = jnp.dtype(qv.quantized_dtype).name
+                    if dname not in ("int8", "int16") or isinstance(qv.quantized, list):
+                        res["state"].append({"dtype": dname, "ed": bool(qv.extract_diagonal)})
+                        continue
+                    lead = 1 if cfg["opt"] == "ds_pmap" else 0
+                    q = np.asarray(qv.quantized)[0] if lead else np.asarray(qv.quantized)
+                    b = np.asarray(qv.bucket_size)[0] if lead else np.asarray(qv.bucket_size)
+                    d = (np.asarray(qv.diagonal)[0] if lead else np.asarray(qv.diagonal)) if qv.extract_diagonal else None
+                    one = QV(jnp.asarray(q), jnp.asarray(d) if d is not None else [], jnp.asarray(b), qv.quantized_dtype,
+                             qv.extract_diagonal, list(q.shape))
+                    y = one.to_float()
+                    again = orig(QV, y, qv.quantized_dtype, qv.extract_diagonal)
+                    res["state"].append({"dtype": dname, "ed": bool(qv.extract_diagonal), "shape": [int(v) for v in q.shape],
+                                         "q": [int(v) for v in q.reshape(-1)], "bucket": bits(b),
+                                         "rq": [int(v) for v in np.asarray(again.quantized).reshape(-1)],
+                                         "rbucket": bits(again.bucket_size), "finite": bool(np.isfinite(np.asarray(y)).all())})
+            except Exception as e:  # noqa: BLE001
+                res["exception"] = type(e).__name__ + ": " + str(e)[:300]
+            results.append(res)
+    finally:
+        QV.from_float_value = classmethod(orig)
+        jax.clear_caches()
+    return results
+
+
+def judge_sites(ctx, results, NB):
+    import numpy as np
+    cases, flat, dreqs, dmeta = [], [], [], []
+    for res in results:
+        cfg = res["cfg"]
+        ctx.evaluated()
+        ctx.dist("site_run:" + cfg["opt"])
+        if "exception" in res:
+            ctx.violation(f"optimizer run {cfg['opt']} with quantized state raised {res['exception']}", {"site_cfg": cfg})
+            continue
+        for r in res["records"]:
+            ctx.dist(f"site_call:{cfg['opt']}:{r['site']}:{r['dtype']}:" + ("empty" if r.get("empty") else "traced" if r.get("traced") else "rank%d" % r["rank"]))
+            # which dtype does the model predict for this call site ?
+            if r["site"] == "_quantize_momentum" and cfg["opt"] == "sm3":
+                dreqs.append({"op": "call_site_dtype", "site": "sm3_momentum"})
+            elif r["site"] == "_quantize_momentum":
+                if r.get("empty"):
+                    continue
+                dreqs.append({"op": "call_site_dtype", "site": "ds_momentum", "best_effort": bool(cfg["best_effort"]), "rank": int(r["rank"])})
+            elif r["site"] == "_quantize_diagonal_statistics":
+                dreqs.append({"op": "call_site_dtype", "site": "ds_diagonal_statistics"})
+            elif r["site"] in ("_maybe_quantize_matrices_with_dtype", "matrix_inverse_pth_root_wrapper", "<listcomp>",
+                               "_pmap_quantized_compute_preconditioners"):
+                dreqs.append({"op": "call_site_dtype", "site": "ds_second_moment", "best_effort": bool(cfg["best_effort"]), "low_rank": False,
+                              "fd": False, "pmap_axis": cfg["opt"] == "ds_pmap", "sharded": False})
+            else:
+                ctx.disagree("site.unknown_caller", {"site_cfg": cfg}, r["site"], None, "QuantizedValue.from_float_value called from a function the model does not know")
+                continue
+            dmeta.append((cfg, r))
+            if r.get("empty"):
+                ctx.corr("site.empty_list_roundtrip", r["ok"])
+                if not r["ok"]:
+                    ctx.violation(f"{r['site']}: from_float_value([]).to_float() is not []", {"site_cfg": cfg})
+                continue
+            if r.get("traced"):
+                continue
+            if r["in_dtype"] != "float32":
+                ctx.dist("site_call_non_float32_input")
+                continue
+            c = {"stream": "float", "dtype": r["dtype"], "shape": r["shape"], "ed": r["ed"], "mode": "eager",
+                 "kind": f"site:{cfg['opt']}:{r['site']}", "data": r["data"]}
+            if r["dtype"] in INT_BITS and r["obs"].get("shape_field") == [] :
+                r["obs"]["shape_field"] = None
+            cases.append(c)
+            flat.append(r["obs"])
+        # invariants of the integer payloads left in the state (no_wrap, diagonal payload 0, max_hits_N, idempotent re-quantization)
+        for sv in res["state"]:
+            ctx.dist(f"site_state:{cfg['opt']}:{sv['dtype']}:ed={int(sv['ed'])}")
+            if "q" not in sv:
+                continue
+            N = NB[sv["dtype"]]
+            rows, cols = sv["shape"][0], prod(sv["shape"][1:])
+            q = np.array(sv["q"], dtype=np.int64).reshape(rows, cols)
+            b = unhex(sv["bucket"]).astype(np.float64)
+            what = []
+            if (np.abs(q) > N).any():
+                what.append(f"stored integer outside [-{N}, {N}]")
+            if sv["ed"] and (np.diag(q) != 0).any():
+                what.append("non-zero payload on the extracted diagonal")
+            mx = np.abs(q).max(axis=0)
+            if ((b > 0) & (mx != N)).any():
+                what.append("a column with positive bucket size whose largest |integer| is not N")
+            if ((b == 0) & (mx != 0)).any() or (b < 0).any() or not sv["finite"]:
+                what.append("zero/negative bucket with non-zero payload, or non-finite to_float")
+            rb = unhex(sv["rbucket"]).astype(np.float64)
+            if sv["rq"] != sv["q"] or (np.abs(rb - b) > 3 * 2.0 ** -24 * b).any():
+                # the property speaks of the integers; in float32 the bucket fl(fl(N*b)/N) may move by an ulp
+                what.append("re-quantizing to_float() of the stored value changes the integers (or a bucket size by more than 3*2^-24 relative)")
+            ctx.corr("site.state_invariants", not what)
+            for w in what:
+                ctx.violation(f"{cfg['opt']} state {sv['dtype']} extract_diagonal={sv['ed']} shape={sv['shape']}: {w}", {"site_cfg": cfg, "state": sv})
+    if dreqs:
+        for (cfg, r), rep in zip(dmeta, ctx.driver(dreqs)):
+            if "error" in rep:
+                raise kit.InfraError(f"driver error: {rep['error']}")
+            ok = rep["dtype"] == r["dtype"]
+            ctx.corr("site.dtype", ok)
+            if not ok:
+                ctx.disagree("site.dtype", {"site_cfg": cfg, "site": r["site"], "rank": r.get("rank")}, r["dtype"], rep["dtype"],
+                             "dtype requested by the call site differs from the model's rule")
+    if cases:
+        judge(ctx, cases, flat, NB)
 
 
 def const_stage(ctx):
@@ -787,6 +1003,9 @@ def run(ctx):
     ]
     cases = load_corpus() + gen_cases(ctx.tier, ctx.seed, NB)
     flat = execute(ctx, cases, NB)
+    cfgs = site_configs(ctx.tier, ctx.seed)
+    site_results = [r for ch in kit.parallel_map(run_sites, kit.chunked(cfgs, 2), nproc=8) for r in ch]
+    judge_sites(ctx, site_results, NB)
     step = max(1, len(cases) // 5)
     for c, obs in list(zip(cases, flat))[::step]:
         if len("".join(c["data"])) < 400:
@@ -799,7 +1018,15 @@ def replay(ctx, data):
     NB = const_stage(ctx)
     cases = [v["case"] for v in data.get("violations", [])]
     cases += [s["detail"]["case"] for s in data.get("stage_failures", [])
-              if isinstance(s.get("detail"), dict) and isinstance(s["detail"].get("case"), dict) and "data" in s["detail"]["case"]]
+              if isinstance(s.get("detail"), dict) and isinstance(s["detail"].get("case"), dict)
+              and ("data" in s["detail"]["case"] or "site_cfg" in s["detail"]["case"])]
     ctx.cov["rule"] = "replay of recorded cases"
+    site_cfgs = []
+    for c in cases:
+        if "site_cfg" in c and c["site_cfg"] not in site_cfgs:
+            site_cfgs.append(c["site_cfg"])
+    cases = [c for c in cases if "data" in c]
     if cases:
         execute(ctx, cases, NB)
+    if site_cfgs:
+        judge_sites(ctx, [r for ch in kit.parallel_map(run_sites, kit.chunked(site_cfgs, 2), nproc=8) for r in ch], NB)
